@@ -3,6 +3,11 @@
 import json, subprocess
 
 BUILT = {
+ "C07": dict(level="exploration",
+   technique="exhaustive operator/builtin/extension x operand-kind tables + wild grammar-based generation + token-level mutation of shipped examples + native fuzzing; oracle = repl.EvalOne never reports a panic other than the two documented guards, process stays alive",
+   text="Every infix operator on every ordered pair of a 42-value operand pool (all kinds, boundary integers, NaN, empty/huge containers, functions, quotes), every prefix/postfix operator, builtin and left-hand-side form on every value, index/slice with all pairs of 16 boundary bounds on 13 targets, every registered extension with 0, 1 and 2 arguments from the pool exhaustively and 3 from a sub-pool, functions of 0..12 integer parameters and loops nested to depth 12 are evaluated in a session holding one variable of every kind; rapid adds wild programs from the syntactic grammar and token-level mutations of the shipped examples; thorough adds coverage-guided fuzzing. Absence of panics is a statement over operand kinds x operators x node shapes, which the tables enumerate.",
+   note="Process memory limit 256 MiB (so the allocation guard is live) with RLIMIT_AS as safety net; per-input deadline 300 ms and depth 300. read/exec/run/long sleeps are not called. A dying or hanging process is re-run on its in-flight case.",
+   ref="DESIGN.md section 3, C07"),
  "C03": dict(level="exploration",
    technique="grammar-based generation with random layout and comment placement + exhaustive statement adjacencies + child-process differential + native fuzzing; oracle = format(format(t)) == format(t) byte for byte, single trailing newline, bytes independent of input order and process",
    text="Accepted texts (generated with comments in every statement position and random line layout so both same-line flags vary, every ordered pair of 35 statement shapes in two layouts, the shipped examples) are formatted twice per mode and must be byte-identical, with exactly one trailing newline in normal mode; batches are formatted in order, in a permuted order interleaved with parsing unrelated inputs (token interning), and in a child process with another map seed (map literals with 9-16 pairs included). Non-idempotence needs particular neighbouring nodes (found: comment at the end of one block followed by another block), which the adjacency and comment generators target.",
